@@ -152,6 +152,8 @@ def cases(tier, seed):
             la = [None] * nlev
             la[lv] = lay
             out.append({"kind": "layout", "geo": geo, "la": la, "lb": list(la), "seed": seed, "sels": [0, 2], "forms": False})
+    # field names with a blank or a comma, selected through LISTS of names
+    out.append({"kind": "blank_names", "geo": geo, "seed": seed, "w": 2})
     # the first input opened with a level limit below its finest level, the second a plotfile of exactly those levels
     out.append({"kind": "limited", "geo": geo, "seed": seed, "w": 2})
     # level directories named otherwise than Level_k, in either input or in both
@@ -181,6 +183,36 @@ def do_combine(pa, pb, out, v1, v2):
         with audit.recording() as ev:
             st, val = call(lambda: fn(PlotfileCooker(pa), PlotfileCooker(pb), pltout=out, vars1=v1, vars2=v2))
     return st, val, ctl, ev
+
+
+def run_blank_names(case, workdir):
+    from amr_kitchen import PlotfileCooker
+    rec = Rec()
+    seed = case["seed"]
+    m = mesh()
+    m.update(case["geo"])
+    L_id = scope.layouts(3, 'id')
+    fa, fb = ["temp", "mass fraction", "a,b"], ["x velocity", "Z", "mass fraction"]
+    da = dict(m, fields=fa, layout=[L_id[5], None], seed=seed)
+    db = dict(m, fields=fb, layout=[L_id[-1], L_id[7]], seed=seed + 1, payload="signed")
+    pa, ra = build(da, workdir, "pltA")
+    pb, rb = build(db, workdir, "pltB")
+    fn = sys_combine()
+    for k, (v1, v2) in enumerate(((None, None), (["mass fraction", "temp"], ["x velocity"]), (["a,b"], ["mass fraction", "Z"]), (["temp"], None))):
+        out = os.path.join(workdir, "out_bn%d" % k)
+        with vpool.controlled() as ctl:
+            st, val = call(lambda: fn(PlotfileCooker(pa), PlotfileCooker(pb), pltout=out, vars1=v1, vars2=v2))
+        sub = {"vars1": v1, "vars2": v2, "names": "with blanks / commas, given as lists"}
+        rec.exe([h64([da, db]), "blank_names", k], nontrivial=True, trans=1 + sum(c["n"] for c in ctl.calls))
+        if st == "exc":
+            rec.fail("raised", sub, exc_text(val))
+            continue
+        pp = oracle.parse_output(rec, sub, out)
+        if pp is not None:
+            oracle.compare_contents(rec, sub, pp, ra.combine(rb, v1, v2))
+            oracle.taste_accepts(rec, sub, out)
+    rec.sample({"blank_names": True})
+    return rec.result()
 
 
 def run_limited(case, workdir):
@@ -238,6 +270,8 @@ def run_case(case, workdir):
         return rec.result()
     if case["kind"] == "limited":
         return run_limited(case, workdir)
+    if case["kind"] == "blank_names":
+        return run_blank_names(case, workdir)
     m = mesh()
     fa_, fb_ = FA, FB
     if case.get("deep"):
